@@ -111,7 +111,9 @@ def _chain_job(starts):
 
 
 class ARig:
-    def __init__(self, chooser=None, window=0.0):
+    def __init__(self, chooser=None, window=0.0, early=None):
+        """early = (k, datagram): the datagram arrives from the spa right after the client's k-th datagram of the
+        handshake has gone out (C05: a partial update during the handshake)."""
         lib.reset_library()
         self.chooser = chooser or Chooser()
         self.loop = VLoop(self.chooser, window=window)
@@ -127,6 +129,16 @@ class ARig:
             desc = GeckoAsyncSpaDescriptor(SPA_ID, "Spa", SPA_ADDR)
             self.spa = GeckoAsyncSpa(CLIENT_ID, desc, self.tasks, self._on_event)
             t = self.loop.create_task(self.spa.connect(), name="HARNESS:connect")
+        self.early_injected = False
+        if early is not None:
+            k, datagram = early[0], early[1]
+            delay = early[2] if len(early) > 2 else 0.005
+            self.loop.run_for(90.0, lambda: t.done() or sum(1 for x in self.net.sent if x[2] == SPA_ADDR) >= k)
+            if not t.done():
+                self.loop.run_for(delay)
+            if not t.done():
+                self.net.inject(self.spa._transport, datagram, SPA_ADDR, delay=0.0)
+                self.early_injected = True
         self.loop.run_for(90.0, t.done)
         if not t.done() or t.exception() or not self.spa.is_connected:
             names = [e.name for e in self.events]
@@ -151,6 +163,9 @@ class ARig:
             return orig(offset, segment)
 
         st.replace_status_block_segment = monitor
+        self.block_at_connect = st.status_block
+        self.connect_mark = len(self.net.sent)
+        self.peer_block_at_connect = self.peer.block
         self.client_block = CLIENT_BLOCK
         self.peer.set_block(SPA_BLOCK)
         st.set_status_block(CLIENT_BLOCK)
